@@ -489,6 +489,7 @@ def build_callbacks(cfg, R, plan, nn_state, tmpdir):
 
 
 _CB_FORM = [0]
+_SCHED_FORM = [0]
 
 
 def _callbacks_arg(cbs):
@@ -609,6 +610,17 @@ def real_run(cfg, plan=(), seed=0, k=1, lr=0.05, numeric_hook=None, time_flag=Fa
         if cfg["sched"]:
             kwargs["scheduler"] = make_scheduler(R, sched_base) if sched_base is not None else make_scheduler(R)
             kwargs["scheduler_args"] = sched_args if sched_args else {"step_size": 1, "gamma": 0.5}
+            # "the constructor of a torch scheduler" and "arguments to pass to it": the arguments may as well be
+            # bound into the constructor (functools.partial, a factory function) and scheduler_args left out / empty
+            _SCHED_FORM[0] += 1
+            form = _SCHED_FORM[0] % 4
+            if form and sched_args is None:
+                import functools
+                ctor, bound = kwargs["scheduler"], kwargs.pop("scheduler_args")
+                kwargs["scheduler"] = (functools.partial(ctor, **bound) if form != 3
+                                       else (lambda opt, _c=ctor, _b=bound: _c(opt, **_b)))
+                if form == 2:
+                    kwargs["scheduler_args"] = {}
         args_before = repr((kwargs.get("optimizer_args"), kwargs.get("scheduler_args")))
         if bases is not None:
             kwargs["input_bases"] = bases
